@@ -722,7 +722,27 @@ pub fn t7w() -> BoxedStrategy<Value> {
             t.wcas(a, WC::Root(0), Some("e"), if desired_null { None } else { Some("wd") }, true, "prev", "cur");
             if nth > 0 {
                 t.run_until_site(a, site::WLINK_CAS, nth);
+                // meanwhile the same weak pointer is installed again, carrying other epoch bits:
+                // either those of a strong cell written right now, or none (a plain downgrade)
                 t.advance(b, k2);
+                t.pin(b);
+                if how % 2 == 0 {
+                    t.load(b, C::Root(0), 0, "bx");
+                    t.counted(b, "bx", "Bx");
+                    t.store(b, C::Root(0), Some("Bx"), 0);
+                    t.load(b, C::Root(0), 0, "bx2");
+                    t.snap_downgrade(b, "bx2", "bws");
+                    t.wcounted(b, "bws", "Bw");
+                } else {
+                    t.load(b, C::Root(0), 0, "bx");
+                    t.counted(b, "bx", "Bx");
+                    t.raw(b, crate::rcworld::K::RcTag, 0, tag, 0);
+                    t.downgrade(b, "Bx", "Bw");
+                    t.drop_rc(b, "Bx");
+                }
+                t.wswap(b, WC::Root(0), Some("Bw"), "Bold");
+                t.wdrop(b, "Bold");
+                t.unpin(b, 0);
                 t.run(b);
             }
             t.run(a);
